@@ -112,7 +112,10 @@ def run_config(pid, hname, cfg, tier, seed, opts):
         if first[0]:
             sys.setprofile(prof)
         try:
-            hrun(W, cfg)
+            import warnings
+            with rnp.errstate(all='ignore'), warnings.catch_warnings():
+                warnings.simplefilter('ignore')          # concrete sub-computations (real numpy) of degenerate configurations
+                hrun(W, cfg)
         finally:
             if first[0]:
                 sys.setprofile(None)
